@@ -100,6 +100,13 @@ var smtCfgs = []*smtCfg{
 	// half far from everything, neighbour of max
 	{name: "w6", bits: 6, statePos: []string{"000001", "000110", "000111", "010000", "100000", "110101"},
 		probePos: []string{"000100", "010001", "101010", "111110"}},
+	// width 17: keys that share the whole first byte (0x55) and differ in the second byte and the last bit, plus
+	// one key across the first byte boundary. Node keys here end INSIDE a byte next to leaves whose following
+	// byte is small (0x01, 0x02, 0x03: the values a compacted 1-2 bit tail takes), large or a power of two:
+	// the shapes in which the byte-level and the bit-level view of a key prefix differ.
+	{name: "w17", bits: 17, statePos: []string{"01010101" + "00000001" + "0", "01010101" + "00000010" + "0", "01010101" + "10000000" + "0",
+		"01010101" + "10000001" + "1", "01010101" + "11000000" + "0", "01010100" + "00000001" + "0"},
+		probePos: []string{"01010101" + "00000000" + "1", "01010101" + "11111111" + "0"}},
 	// the width-6 sub-universe used for malformed proofs in the quick tier
 	{name: "w6s", bits: 6, statePos: []string{"000110", "000111", "010000", "110101"}, probePos: []string{"000100", "101010"}},
 }
@@ -289,6 +296,9 @@ var storeHistory = []verOps{
 const (
 	pathLive     = "store-live"     // live store between Root() and Commit()
 	pathReadOnly = "store-readonly" // NewReadOnly(v) opened right after the commit of v and again after all commits
+	// NewReadOnly(v) opened while block v+1 is in flight: its writes are pending and Root() was already computed
+	// for it (what ApplyBlock leaves behind until Commit / Reset)
+	pathReadOnlyPending = "store-readonly-while-next-block-pending"
 )
 
 type storeProof struct {
@@ -380,6 +390,17 @@ func buildStoreWorld() (w *storeWorld, err error) {
 		for ki, k := range u.keys {
 			p, errS := getProofSafe(w.st, k)
 			w.record(vi, ki, pathLive, p, errS)
+		}
+		if vi > 0 {
+			ro, e := w.st.NewReadOnly(version - 1)
+			if e != nil {
+				return nil, e
+			}
+			for ki, k := range u.keys {
+				p, errS := getProofSafe(ro, k)
+				w.record(vi-1, ki, pathReadOnlyPending, p, errS)
+			}
+			ro.Discard()
 		}
 		root, e := w.st.Commit()
 		if e != nil {
